@@ -233,12 +233,13 @@ theorem DFA.ofBlocks_lookup [i : BEq (List σ × τ)] [LawfulBEq (List σ × τ)
       if B ∈ blocks ∧ a ∈ D.Sigma then some (D.repNext blocks B a) else none := by
   rw [DFA.ofBlocks_delta_eq D blocks hne,
     lookup_flatMap_keys blocks D.Sigma (fun B a => D.repNext blocks B a)]
+  congr
 
 theorem DFA.ofBlocks_next (D : DFA σ τ) (blocks : List (List σ)) (hne : ∀ B, B ∈ blocks → B ≠ [])
     {B : List σ} {a : τ} (hB : B ∈ blocks) (ha : a ∈ D.Sigma) :
     (D.ofBlocks blocks).next B a = D.repNext blocks B a := by
   apply DFA.next_of_lookup
-  rw [DFA.ofBlocks_lookup (i := _) D blocks hne, if_pos ⟨hB, ha⟩]
+  exact (DFA.ofBlocks_lookup (i := @instBEqProd _ _ instBEqOfDecidableEq instBEqOfDecidableEq) D blocks hne B a).trans (if_pos ⟨hB, ha⟩)
 
 /-- the quotient on a partition of the states of a valid DFA is valid -/
 theorem DFA.ofBlocks_valid (D : DFA σ τ) (hv : D.valid = true) (blocks : List (List σ))
@@ -256,7 +257,7 @@ theorem DFA.ofBlocks_valid (D : DFA σ τ) (hv : D.valid = true) (blocks : List 
     exact (hP.blockOf_mem (DFA.valid_next_mem hv (hP.sub B hB v hv') ha)).1
   · intro B a hB ha
     refine ⟨D.repNext blocks B a, ?_⟩
-    rw [DFA.ofBlocks_lookup (i := _) D blocks hP.nonempty, if_pos ⟨hB, ha⟩]
+    exact (DFA.ofBlocks_lookup (i := @instBEqProd _ _ instBEqOfDecidableEq instBEqOfDecidableEq) D blocks hP.nonempty B a).trans (if_pos ⟨hB, ha⟩)
 
 /-! ### `ofBlocks` on a congruence -/
 
